@@ -59,6 +59,12 @@ def cfgs(tier):
         n = len(ch)
         depth = None if only_f else ((6 if n == 1 else 5 if n == 2 else 4) + (0 if q else 2))
         out.append(dict(consumers=[ch], window=2.5 if q else 3, dmax=dmax, gaps=(1, 2, 3) if n < 3 else (1, 2), beyond=1.5 if has_u(ch) else 0.5, max_depth=depth, value_scale=2 ** sum(1 for t in ch if t[0] == "S") if False else 1))
+    # other time scales and masked payloads on the single adapters
+    for ch in [[t] for t in ([["F", 0.5], ["F", 2.5], ["P", 1, 0], ["P", 2, 0.5], ["U"]])]:
+        dmax = sum(t[1] for t in ch if t[0] == "F") + sum(t[2] for t in ch if t[0] == "P")
+        for unit in (2, 7 * 86400 * 10**6):
+            out.append(dict(consumers=[ch], window=2, dmax=dmax, gaps=(1, 2), beyond=1.5 if has_u(ch) else 0.5, max_depth=5, unit_us=unit))
+        out.append(dict(consumers=[ch], window=2, dmax=dmax, gaps=(1, 2), beyond=1.5 if has_u(ch) else 0.5, max_depth=5, payload="masked"))
     # a direct consumer next to a delayed one (the delayed one keeps the output's history alive)
     for ch in ([["F", 2.5]], [["P", 2, 0]], [["U"]]):
         out.append(dict(consumers=[ch, []], window=2.5, dmax=3, gaps=(1, 2), beyond=1.5 if has_u(ch) else 0.5, max_depth=6 if q else 8))
